@@ -97,8 +97,11 @@ type AWS struct {
 	ASGs      map[string]*ASG
 	Instances map[string]*Instance
 	Fleet     FleetPlan
-	nextID    int
-	AZs       []string
+	// BumpAfterDescribe: once, right after the next successful DescribeAutoScalingGroups answer that lists
+	// the group, somebody else raises its desired capacity by this much (never beyond its maximum)
+	BumpAfterDescribe map[string]int64
+	nextID            int
+	AZs               []string
 }
 
 // NewAWS creates an empty cloud.
@@ -293,6 +296,12 @@ func (c *asClient) DescribeAutoScalingGroups(in *autoscaling.DescribeAutoScaling
 				ResourceId: awsapi.String(g.Name), ResourceType: awsapi.String("auto-scaling-group"), PropagateAtLaunch: awsapi.Bool(true)})
 		}
 		out.AutoScalingGroups = append(out.AutoScalingGroups, grp)
+		if d, ok := c.a.BumpAfterDescribe[name]; ok {
+			delete(c.a.BumpAfterDescribe, name)
+			if g.Desired += d; g.Desired > g.Max {
+				g.Desired = g.Max
+			}
+		}
 	}
 	return out, nil
 }
